@@ -114,6 +114,24 @@ CURATED_LANG = [
     ("stmt-list", "p = st*\nst = I E | L p R | K I?"),
 ]
 
+
+def _wide():
+    """table rows wider than any bundled grammar has: a state with 18 non-terminal transitions (goto row) and a state with
+    20 terminal actions, the rules / terminals declared in *descending* name order (lox orders row entries by name in some
+    places and by index in others; a lookup that assumes one order on a row emitted in the other only fails on wide rows)"""
+    import string
+    T = "ABCDE"
+    pairs = [(a, b) for a in T for b in T][:18]
+    names = ["%s%02d" % (string.ascii_lowercase[25 - i], i) for i in range(18)]       # z00 y01 x02 ... declared in this order
+    lines = ["s = st+", "st = " + " | ".join(names)] + ["%s = %s %s" % (n, a, b) for n, (a, b) in zip(names, pairs)]
+    wide_goto = ("wide-goto-row", "\n".join(lines))
+    toks = ["%s%s" % (string.ascii_uppercase[25 - i], string.ascii_uppercase[i]) for i in range(20)]   # ZA YB XC ...
+    wide_act = ("wide-action-row", "s = " + " | ".join("%s %s" % (t, toks[(i * 7 + 3) % 20]) for i, t in enumerate(toks)))
+    return [wide_goto, wide_act]
+
+
+CURATED_LANG += _wide()
+
 # grammars with @error (C09; also C01 for the clean part)
 CURATED_ERR = [
     ("err-alone", "s = A B | @error"),
@@ -151,6 +169,14 @@ CURATED_ERR = [
 ]
 
 CURATED_BOUNDS = [
+    # nullable rules on a cycle (nullability needs a fixed point, not one depth-first pass): the empty alternative written
+    # after / before the production that names the other rule of the cycle, the cycle entered at either rule
+    ("b-nullable-cycle", "file = lines\nlines = lead L | @empty\nlead = lines N*"),
+    ("b-nullable-cycle-empty-first", "file = lines\nlines = @empty | lead L\nlead = lines N*"),
+    ("b-nullable-cycle-other-entry", "@start file = lead L\nlines = lead L | @empty\nlead = lines N*"),
+    ("b-nullable-cycle-3", "s = a\na = b X | @empty\nb = c Y?\nc = a Z*"),
+    ("b-nullable-cycle-right", "s = X a\na = X b | @empty\nb = Y? a"),
+    ("b-nullable-cycle-wrapped", "s = w E\nw = lines\nlines = lead L | @empty\nlead = lines N*"),
     ("b-nullable-start", "s = n A B\nn = @empty"),
     ("b-nullable-mid", "s = A n B\nn = @empty"),
     ("b-nullable-end", "s = A B n\nn = @empty"),
